@@ -33,6 +33,19 @@ claim("C01", "proof",
       "static analysis: partial evaluation of kernels to terms + polynomial identity testing",
       "DESIGN.md §5 C01")
 
+claim("C02", "proof",
+      "For every scheme reachable from RungeKutta/FixedRK/AdaptiveRK and for the centre-manifold map's own stepper, the "
+      "tableau the code actually applies is extracted by partial evaluation of the stepping code together with its "
+      "literal tables; all rooted-tree order conditions up to the declared order (200 trees at order 8), the embedded "
+      "error weights, the FSAL stage, the row-sum condition, and the continuous order conditions of both dense outputs "
+      "(order 4 / order 7, as polynomial identities in theta) are evaluated in exact rational arithmetic. Controller "
+      "arithmetic is decided over order-abstract regions. Decides declared order and table fidelity; does not decide "
+      "that the global error is a modest multiple of the tolerance.",
+      "Trusted: Butcher's order-condition theorem, kpe/numpy fragment semantics, Fractions. Decimal tables are judged "
+      "on the digits written with threshold 1e-15. Adaptive drivers' loops are covered by C10/C11 path rules, not here.",
+      "static analysis: partial evaluation to an effective tableau + exact rooted-tree order conditions",
+      "DESIGN.md §5 C02")
+
 claim("C03", "proof",
       "The integrated variational system is proved to be (f, Df*Phi) with Phi(0)=I in the 36+6 row-major layout that "
       "_compute_stm builds and slices (interpreted with the propagator abstracted); the extracted Jacobian satisfies "
